@@ -96,3 +96,21 @@ package ws
 //@   ghost gval = result0 at call:get#1
 //@   before call:get#1 assert arg0 == mangos.OptionMaxRecvSize
 //@   before call:SetReadLimit#1 assert isnil(gerr) && is_int(gval) ==> arg0 == int_of(gval)
+
+// ---- thin spots (round 7b) ----
+//@ func (*wsPipe).Close
+//@   ghost wasOpen = w.open at call:Lock#1
+//@   ensures isnil(result) && !w.open
+//@   ensures wasOpen ==> called("Close") && called("Done")
+//@   ensures !wasOpen ==> !called("Close") && !called("Done")
+//@
+//@ func (*listener).GetOption
+//@   ensures n == OptionWebSocketMux ==> isnil(result1)
+//@   ensures n == OptionWebSocketHandler ==> isnil(result1) && l.running && l.noserve
+//@   ensures n != OptionWebSocketHandler ==> unchanged(l.running, l.noserve)
+//@   ensures n == OptionWebSocketCheckOrigin ==> isnil(result1) && is_bool(result0)
+//@
+//@ func (wsTran).NewDialer
+//@   ensures isnil(result1) ==> cast("*dialer", result0).addr == addr && has(cast("*dialer", result0).opts, mangos.OptionMaxRecvSize) && cast("*dialer", result0).opts[mangos.OptionMaxRecvSize] == iface(0)
+//@   ensures isnil(result1) ==> cast("*dialer", result0).opts[mangos.OptionNoDelay] == iface(true)
+//@   ensures !isnil(result1) ==> result1 == mangos.ErrBadTran && isnil(result0)
